@@ -27,6 +27,10 @@ PosOK(bytes, off, line, col) ==
   /\ line = 1 + NewlinesBefore(bytes, off)
   /\ col = off - LineStart(bytes, off)
 
+\* bytes that occur in the UTF-8 encodings of the white space the generators use
+\* (ASCII blanks, U+00A0, U+2003, U+2028, U+3000)
+IsWsByte(b) == b \in {32, 9, 10, 13, 11, 12, 194, 160, 226, 128, 131, 168, 227}
+
 (* ---- C13 on a tree ------------------------------------------------------ *)
 \* leaves: sequence of leaf records of the whole tree; k: number of leaves before n
 RECURSIVE SpanDefects(_, _, _, _)
@@ -47,7 +51,13 @@ SpanDefects(bytes, leaves, n, k) ==
                           IN IF n.s = n.e /\ prevEnd <= n.s /\ n.s <= nextStart THEN {}
                              ELSE {<<"empty_span", n.p, n.s, n.e, prevEnd, nextStart>>}
                      ELSE IF n.s = n.c[1].s /\ n.e = n.c[Len(n.c)].e THEN {}
-                          ELSE {<<"nonterm_span", n.p, n.s, n.e, n.c[1].s, n.c[Len(n.c)].e>>}
+                          ELSE LET lo == IF n.s < n.c[1].s THEN n.s ELSE n.c[1].s
+                                   hi == IF n.s < n.c[1].s THEN n.c[1].s ELSE n.s
+                               IN \* classified separately: only the start differs and only by layout
+                                  IF n.e = n.c[Len(n.c)].e /\ lo >= 0 /\ hi <= Len(bytes)
+                                     /\ \A i \in (lo + 1) .. hi : IsWsByte(bytes[i])
+                                  THEN {<<"nonterm_start_differs_by_layout", n.p, n.s, n.e, n.c[1].s>>}
+                                  ELSE {<<"nonterm_span", n.p, n.s, n.e, n.c[1].s, n.c[Len(n.c)].e>>}
           IN pos \cup own \cup Kids(1, k)
 
 C13Tree(bytes, tree) == SpanDefects(bytes, Leaves(tree), tree, 0)
@@ -56,7 +66,7 @@ C13Tree(bytes, tree) == SpanDefects(bytes, Leaves(tree), tree, 0)
 RECURSIVE FlatCat(_)
 FlatCat(seqs) == IF seqs = <<>> THEN <<>> ELSE Head(seqs) \o FlatCat(Tail(seqs))
 
-IsWs(b) == b \in {32, 9, 10, 13, 11, 12}
+IsWs(b) == IsWsByte(b)
 Reconstruct(tree) ==
   LET l == Leaves(tree) IN FlatCat([i \in 1 .. Len(l) |-> l[i].lay \o l[i].v])
 
